@@ -18,7 +18,7 @@ var collisionDocs = univ.Js(
 	`{"":1}`, `{"":{"":2}}`, `{"a":{"":[7,8]}}`, `"a"`, `"abc"`, `""`, `0`, `-1`, `1.5`, `true`,
 	`{"a":{"b":{"a":{"b":1}}}}`, `[null,null]`, `[null,1]`, `[[null]]`, `{"b":[[1,2],[3,4]]}`, `{"a":[{"b":[1,2]},{"b":[3]}]}`,
 	`[{"a":[1,2]},{"a":[3,4]}]`, `{"a":{"a":{"a":{"a":1}}}}`, `[[],[[]],[[[]]]]`, `[{}, {"a":{}}]`, `{"a":[], "b":{}}`,
-	`[1,"a",null,false,[],{}]`, `{"a":[1,"a",null,false,[],{}]}`, `{"A":1,"a":2}`, `{"a b":1}`, `[0,1,2,3,4,5,6,7,8,9]`, `{"a":"1","b":1}`, `{"b":{"a":1}}`,
+	`[1,"a",null,false,[],{}]`, `{"a":[1,"a",null,false,[],{}]}`, `{"A":1,"a":2}`, `{"A":1,"B":[1,2]}`, `[{"A":{"A":1}},{"B":2}]`, `{"A":{"B":{"A":1}},"b":3}`, `{"a b":1}`, `[0,1,2,3,4,5,6,7,8,9]`, `{"a":"1","b":1}`, `{"b":{"a":1}}`,
 	// strings whose characters spell JSON (a document is data, never text to be decoded)
 	`"[1, 2]"`, `"{\"a\": {\"b\": 1}}"`, `"1"`, `"null"`, `"true"`, `"\"a\""`, `{"a":"[1,2]","b":"{\"a\":1}"}`, `["[0]", "{}"]`,
 )
